@@ -633,15 +633,56 @@ func init() {
 func init() {
 	const tt = "github.com/cosmos/ibc-go/v3/modules/apps/transfer/types"
 	execThrough[tt+".GetDenomPrefix"] = true
+	execThrough[tt+".ReceiverChainIsSource"] = true
+	execThrough[tt+".SenderChainIsSource"] = true
+	// ParseDenomTrace(raw) = {Path, BaseDenom}: without a "/" the path is empty and the base is raw; with one, raw is
+	// Path + "/" + BaseDenom and the base has no "/" (ibc-go trace.go). Path and base are uninterpreted functions of raw.
 	models[tt+".ParseDenomTrace"] = func(it *Interp, a []Val) Val {
-		return &Native{Kind: "denomtrace", Data: it.toA(a[0].(*StrV))}
+		rawV := a[0].(*StrV)
+		raw := it.toA(rawV)
+		path, base := App("tracepath", SStr, raw), App("tracebase", SStr, raw)
+		slash := &StrV{Bytes: []*Term{BVu(8, '/')}, IsB: true}
+		pathV, baseV := &StrV{T: path}, &StrV{T: base}
+		if !it.p.lenAx[path.id] {
+			it.strLenTerm(path)
+			it.strLenTerm(base)
+			has := it.strContains(rawV, slash)
+			if concatHasSlash(it, raw) {
+				it.p.assertAxiom(has)
+			}
+			full := it.toA(it.strConcatA(it.strConcatA(pathV, slash), baseV))
+			it.p.assertAxiom(Implies(Not(has), And(Eq(path, it.litTerm("")), Eq(base, raw))))
+			it.p.assertAxiom(Implies(has, And(Eq(raw, full), Not(it.strContains(baseV, slash)))))
+		}
+		pkg := it.prog.ImportedPackage(tt)
+		return &StructV{T: pkg.Type("DenomTrace").Type(), F: []Val{pathV, baseV}}
 	}
 	models["("+tt+".DenomTrace).IBCDenom"] = func(it *Interp, a []Val) Val {
-		raw := a[0].(*Native).Data.(*Term)
-		t := App("ibcdenom", SStr, raw)
+		sv := a[0].(*StructV)
+		pathV, baseV := sv.F[0].(*StrV), sv.F[1].(*StrV)
+		if it.p.branch(it.strEq(pathV, &StrV{IsB: true})) {
+			return baseV
+		}
+		slash := &StrV{Bytes: []*Term{BVu(8, '/')}, IsB: true}
+		full := it.toA(it.strConcatA(it.strConcatA(pathV, slash), baseV))
+		t := App("ibcdenom", SStr, full)
 		it.strLenTerm(t)
 		return &StrV{T: t}
 	}
+}
+
+// concatHasSlash: the term is a concatenation one of whose literal parts contains "/".
+func concatHasSlash(it *Interp, t *Term) bool {
+	if t.op == "var" {
+		if v, ok := it.p.litVal[t.name]; ok {
+			return strings.Contains(v, "/")
+		}
+		return false
+	}
+	if t.op == "app" && t.name == "concat" {
+		return concatHasSlash(it, t.args[0]) || concatHasSlash(it, t.args[1])
+	}
+	return false
 }
 
 // The denomination syntax is read from the cosmos-sdk version /repo builds against (types/coin.go: reDnmString);
